@@ -57,6 +57,12 @@ def tweak(rng, root, ctx):
             k = rng.choice([1, 3, 4, 5, 6, 9])
             # (sometimes wrapped the way editors and pretty-printers wrap long titles: line breaks and indentation between words)
             t.content = words(rng, k) if rng.random() < 0.8 else words(rng, k).replace(" ", rng.choice(["  ", "\xa0", " \xa0 ", " \n      ", " \t ", "\n", " \r\n "]))
+            if rng.random() < 0.12 and k >= 2:
+                # an invisible character standing alone between two spaces (pasted from a web page or a PDF): a token like any other
+                ws = t.content.split(" ") + ["x"]
+                ws[rng.randrange(1, len(ws))] = rng.choice(["\u200b", "\ufeff", "\u2060", "\u200d"])
+                t.content = " ".join(ws)
+                ctx.count("titles_with_an_invisible_token")
             if k in (4, 5):
                 ctx.count("title_at_threshold")
         mode = rng.choice(["keep", "absent", "text", "paras", "markdown", "inline_only", "empty_section", "nested_lists", "nested_lists"])
